@@ -201,8 +201,8 @@ func run(s Script, v *vt.V) {
 		}
 
 		// ---- drive the schedule and compute the expectation alongside
-		decided := false         // by the totally ordered events so far the call must have its result
-		var wantMember = -2      // -2 undecided; -1 error; 0/1 success from that member
+		decided := false           // by the totally ordered events so far the call must have its result
+		var wantMember = -2        // -2 undecided; -1 error; 0/1 success from that member
 		tolerant := map[int]bool{} // results accepted when an answer and the cancellation coincide
 		failedCount := 0
 		cancelled := false
